@@ -20,6 +20,10 @@ _API_NOTE = ("Trusted: TLC; the harness' value/byte classification and reference
              "small constants of the design-level configuration; the real store is driven through TLC-simulated "
              "behaviours under sampled concretisations (key embeddings, group sizes, value size classes, store options).")
 
+_SEG = (" The rollback segment log has its own specification (Seglog: one action per file operation, process crash between "
+        "any two and during recovery, seglog::open transcribed; invariants NeverFails, RingIsTruth, NoStaleRecord, NoGap) which is "
+        "model-checked and against which every recorded file operation of the real log%s is validated by TLC (SeglogTrace).")
+
 def _api(text, ref):
     return dict(level="model_checking", engine="tlc", design_ref=ref, note=_API_NOTE, text=text,
                 technique="TLA+ specification NomtApi checked exhaustively with TLC; TLC-generated behaviours replayed "
@@ -36,8 +40,9 @@ CHECKS = {
                 "DESIGN.md 4/C02"),
     "C09": _api("Invariant LogMatchesHist: every retained delta prefix restores exactly the ghost pre-state, with the "
                 "code's traceback order and one-sync pruning lag modelled; traces with log lengths 1-3 and kilobyte "
-                "segment sizes (roll-over, pruning) must follow Rollback / RollbackRefused exactly.",
-                "DESIGN.md 4/C09"),
+                "segment sizes (roll-over, pruning) must follow Rollback / RollbackRefused exactly." +
+                _SEG % "",
+                "DESIGN.md 4/C09, 11"),
     "C10": _api("Invariants ReopenTransparent / AvailRetained / DurableIsVisible; traces with Close;Reopen under changed "
                 "store options at every position, plus twin runs without the reopen, must be accepted.",
                 "DESIGN.md 4/C10"),
@@ -96,9 +101,11 @@ CHECKS.update({
                  "are recorded, the directory image of EVERY event boundary (in-flight operations applied or not, singly toggled) is "
                  "materialised, reopened with the real store - whose recovery is recorded and interrupted again - and the observation "
                  "(values, root vs reference, proofs, seqn, one further commit) must be NomtApi's state before or after the call, "
-                 "the latter once the call has returned (ApiTrace!TrImage).", "DESIGN.md 4/C03",
-                 "TLA+ NomtSync model-checked with TLC (all crash points, nested); crash-point enumeration of recorded I/O traces of "
-                 "the real store with reopened images validated by TLC against NomtApi (ApiTrace)"),
+                 "the latter once the call has returned (ApiTrace!TrImage)." + _SEG % ", including the recorded recovery of the crash "
+                 "image at every event boundary,", "DESIGN.md 4/C03, 11",
+                 "TLA+ NomtSync and Seglog model-checked with TLC (all crash points, nested); crash-point enumeration of recorded I/O "
+                 "traces of the real store with reopened images validated by TLC against NomtApi (ApiTrace) and recoveries validated "
+                 "against Seglog (SeglogTrace)"),
     "C04": _sync("model_checking", "NomtSync!OldOrNew / DurableOldOrNew / NoTornLog hold for every power-loss choice (any subset of "
                  "unsynced page writes, lost resizes/appends/directory entries, torn log) at every step incl. during recovery, and "
                  "each ordering guard is shown load-bearing by a mutant configuration; recorded event streams of the real store are "
@@ -118,9 +125,9 @@ CHECKS.update({
                  "ht-after-meta / prune-after-meta guards); every page write, resize and unlink recorded from the real store across "
                  "store configurations is validated by TLC (SyncTrace) against the pre-image decoded from meta and the free lists: "
                  "before the meta page is durable ln/bbn writes only hit free or beyond-bump pages, the hash table is untouched, no "
-                 "rollback segment is unlinked.", "DESIGN.md 4/C17",
-                 "TLA+ NomtSync model-checked with TLC incl. guard mutants; recorded I/O event streams of the real store validated "
-                 "by TLC against the decoded pre-image (SyncTrace)"),
+                 "rollback segment is unlinked." + _SEG % "", "DESIGN.md 4/C17, 11",
+                 "TLA+ NomtSync and Seglog model-checked with TLC incl. guard mutants; recorded I/O event streams of the real store "
+                 "validated by TLC against the decoded pre-image (SyncTrace) and against Seglog (SeglogTrace)"),
 })
 
 CHECKS.update({
